@@ -179,7 +179,7 @@ def set_salt(x):
 
 
 VARIANTS = ("direct", "direct", "copy", "rebuild", "positional", "fresh_strings", "numpy_scalars", "pickle", "copy_kw",
-            "deepcopy", "subclass", "sub_fixed", "sub_defaults", "sub_extra")
+            "deepcopy", "subclass", "sub_fixed", "sub_defaults", "sub_extra", "omit_defaults")
 _SUBCLASSES = {}
 
 
@@ -206,6 +206,21 @@ def variant(cls, params, key, first_positional=None):
                 return pickle.loads(pickle.dumps(base))
             except Exception:  # noqa: BLE001   (a parameter that cannot be pickled is the caller's business)
                 return base
+        if route == "omit_defaults" and params:
+            # arguments that equal the documented default are left out instead of being passed explicitly
+            sigp = inspect.signature(cls.__init__).parameters
+            kw = {}
+            for k, v in params.items():
+                d = sigp[k].default if k in sigp else inspect.Parameter.empty
+                same = False
+                if d is not inspect.Parameter.empty:
+                    try:
+                        same = bool(type(d) is type(v) and d == v)
+                    except Exception:  # noqa: BLE001
+                        same = False
+                if not same:
+                    kw[k] = v
+            return cls(*args, **kw)
         if route == "deepcopy":
             import copy as _copy
             return _copy.deepcopy(base)
